@@ -818,10 +818,10 @@ impl InstrFormat for StdHooks10 {
         Ok(ReadInstr::Instr(RawInstr { time, opcode: opcode as u16, param_mask: 0, args_blob, ..RawInstr::DEFAULTS }))
     }
 
-    fn write_instr(&self, f: &mut BinWriter, _: &dyn Emitter, instr: &RawInstr) -> WriteResult {
+    fn write_instr(&self, f: &mut BinWriter, emitter: &dyn Emitter, instr: &RawInstr) -> WriteResult {
         f.write_i32(instr.time)?;
         f.write_u16(instr.opcode)?;
-        f.write_u16(self.instr_size(instr) as u16)?;
+        f.write_u16(llir::fit_instr_field(emitter, "size", self.instr_size(instr))?)?;
         f.write_all(&instr.args_blob)?;
         Ok(())
     }
